@@ -18,11 +18,16 @@
    MISSING, named: (1) trees whose root carries a non-canonical xsi:schemaLocation text (serialize rewrites it: the
    re-loaded tree equals the REWRITTEN one; set_version is not shown to preserve RootCanon); lenient loads WITH warnings
    (nothing is claimed about their trees); (2) RootCanon states the header attributes semantically (parse_file_header
-   returns ver silently on them; rootcanonb evaluates that). *)
+   returns ver silently on them; rootcanonb evaluates that).
+   For the recorded classes there is a positive statement, not only the refutation: what IS read back -
+   C01_value_reload (plain String: the text modulo blanks at both ends; Pattern: the escaped text),
+   C01_text_merge_same_text / C01_reload_merged (adjacent text items: the concatenated text). *)
 From AV Require Import Base.Bytes Base.Outcome Base.Utf8 Hash.HashModel Spec.SpecOps Spec.Versions
   Xml.Lexer Xml.Parser Xml.Serializer Xml.LexerProofs Xml.Escape Xml.RoundTripValues Xml.RoundTripAttrs
   Xml.RoundTripLexer Xml.StrictValidDef Xml.ParserDepth Xml.RoundTripElem Xml.RoundTripFile Xml.TablesOk
-  Xml.RoundTripCanonValues Xml.RoundTripCanon Xml.Utf8Closure Xml.RoundTripCanonFinal Xml.RoundTripCanonb Xml.RoundTripLexerComment Xml.ParserExamples Xml.RoundTripExamples.
+  Xml.RoundTripCanonValues Xml.RoundTripCanon Xml.Utf8Closure Xml.RoundTripCanonFinal Xml.RoundTripCanonb Xml.RoundTripLexerComment Xml.ParserExamples Xml.RoundTripExamples
+  Xml.RoundTripReload Xml.RoundTripReloadExamples.
+From AV Require Import Spec.SpecTypes.
 From AV Require Import Spec.SpecReal Hash.HashRealElement Hash.HashRealAttr Hash.HashRealEnum.
 Open Scope list_scope.
 Open Scope N_scope.
@@ -312,3 +317,81 @@ Theorem C01_lexed_comments_ok :
   forall (f : nat) (st : lstate) (line : N) (c : list N) (st' : lstate),
   lex_next f st = Val (LOk line (EvComment c) st') -> CommentOk c.
 Proof. exact lex_comment_ok. Qed.
+
+(* ---------- the recorded classes: what IS read back (Xml/RoundTripReload.v) ---------- *)
+(* [U] escaping commutes with dropping the blanks at both ends (strip s = rev (drop_ws (rev (drop_ws s))), the value of
+   trim_byte_string): blanks are written as they are, an escape sequence neither begins nor ends with a blank *)
+Theorem C01_trim_escape :
+  forall s : list N, trim_byte_string (escape_text s) = Val (escape_text (strip s)).
+Proof. exact trim_escape. Qed.
+
+(* [U] values, without the conditions that define the recorded value classes (ValLoose: a Pattern value may contain the
+   five escaped bytes and blanks at the ends, a plain String may have blanks at the ends; the length / validator / UTF-8
+   conditions are those of the text the loader will see).  The written text of v is read back, silently, as
+   reload_value spec v:
+       Pattern                       DString (escape_text (strip s))   - one more level of escaping, modulo edge blanks
+       String, no preserve_whitespace DString (strip s)                - the text modulo edge blanks
+       anything else                 v
+   and reload_value spec v = v on ValOk (so this contains C01_value_roundtrip). *)
+Theorem C01_value_reload :
+  forall (strict : bool) (tab_en : nametab) (check_fn : N -> list N -> res bool)
+         (float_fmt : N -> list N) (float_parse : list N -> option N) (ver : N) (spec : cdspec) (v : cdata) (st : pstate),
+  ValLoose tab_en check_fn float_fmt float_parse ver spec v -> p_version st = ver ->
+  exists bytes c, ser_cdata tab_en float_fmt v = Val bytes /\
+    parse_character_data strict tab_en check_fn float_parse bytes spec st = Val (Ret (reload_value spec v) (set_compat st c)).
+Proof. exact value_reload. Qed.
+
+Theorem C01_value_reload_conservative :
+  forall (tab_en : nametab) (check_fn : N -> list N -> res bool) (float_fmt : N -> list N)
+         (float_parse : list N -> option N) (ver : N) (spec : cdspec) (v : cdata),
+  ValOk tab_en check_fn float_fmt float_parse ver spec v -> reload_value spec v = v.
+Proof. exact reload_ok. Qed.
+
+(* [U] adjacent text items: a tree and its merged form (norm T t: in every element with Mixed content, runs of adjacent
+   text items are concatenated, recursively) are written as the same text - every tree, every indent *)
+Theorem C01_text_merge_same_text :
+  forall (T : tables) (tab_el tab_at tab_en : nametab) (float_fmt : N -> list N) (t : etree) (indent : nat) (inline : bool),
+  ser_elem T tab_el tab_at tab_en float_fmt (norm T t) indent inline = ser_elem T tab_el tab_at tab_en float_fmt t indent inline.
+Proof. exact ser_norm. Qed.
+
+(* [U] hence what is read back from the written text of t is the merged tree, whenever that is a canonical root
+   (decidable: rootcanonb; for the document of the class mixed-text-split it is: C01_merged_example) *)
+Theorem C01_reload_merged :
+  forall (T : tables) (tab_el tab_at tab_en : nametab) (check_fn : N -> list N -> res bool) (float_fmt : N -> list N)
+         (strict : bool) (float_parse : list N -> option N) (ver : N) (sa : option bool) (t : etree) (bs : list N),
+  RootCanon strict T tab_el tab_at tab_en check_fn float_fmt float_parse ver (norm T t) ->
+  set_version T tab_at check_fn ver t = Val t ->
+  serialize_file T tab_el tab_at tab_en check_fn float_fmt ver sa t = Val bs ->
+  exists st, load strict T tab_el tab_at tab_en check_fn float_parse bs = Val (Ret (norm T t) st) /\
+             p_warnings st = [] /\ p_version st = ver /\ p_standalone st = sa.
+Proof. exact reload_merged. Qed.
+
+(* [F] on the real tables, for the three documents of the recorded classes (load, serialize, load):
+   mixed-text-split: the second tree IS norm of the first, which differs from it ("ab" only after merging) and is a
+   canonical root while the first is not; a document without adjacent text items is its own merged form;
+   encoded-edge-blank-lost: " lead" is read back as "lead"; pattern value: "a&amp;b" is read back as "a&amp;amp;b". *)
+Theorem C01_merged_example :
+  match reload_of doc_mixed_split with
+  | Some (t, ver, t') =>
+    t' = norm RT t /\ any_node (has_text (BS "ab")) t = false /\ any_node (has_text (BS "ab")) (norm RT t) = true /\
+    rootcanonb RT tab_element tab_attr tab_enum accept_all no_float_fmt no_float ver (norm RT t) = true /\
+    rootcanonb RT tab_element tab_attr tab_enum accept_all no_float_fmt no_float ver t = false
+  | None => False
+  end.
+Proof. exact merged_real. Qed.
+Theorem C01_merged_identity_example :
+  match LOAD true doc_rich with Val (Ret t _) => norm RT t = t | _ => False end.
+Proof. exact merged_rich_id. Qed.
+Theorem C01_edge_blank_example :
+  match reload_of doc_edge_blank with
+  | Some (t, _, t') => any_node (has_text (BS " lead")) t = true /\ any_node (has_text (BS "lead")) t' = true /\
+                       any_node (has_text (BS " lead")) t' = false
+  | None => False
+  end.
+Proof. exact edge_blank_real. Qed.
+Theorem C01_amp_pattern_example :
+  match reload_of doc_amp_pattern with
+  | Some (t, _, t') => any_node (has_text (BS "1.0.0;a&amp;b")) t = true /\ any_node (has_text (BS "1.0.0;a&amp;amp;b")) t' = true
+  | None => False
+  end.
+Proof. exact amp_pattern_real. Qed.
